@@ -3,10 +3,11 @@
 -/
 import Model.Poly
 import Spec.Poly
-deriving instance DecidableEq for Except
-
 namespace Proofs.PolyL
 open Model Model.Poly Model.Py
+
+-- lets `decide` settle the concrete instances in the non-vacuity examples (the instance name stays inside this namespace)
+deriving instance DecidableEq for Except
 
 /-! ### coefficient access -/
 
